@@ -54,6 +54,11 @@ var contexts = []struct {
 	{"last-statement", false, true}, // discarded result then implicit return: frame reuse is an unclaimed, value-preserving optimisation
 	{"stmt-then-return", false, false},
 	{"return-in-array", false, false},
+	// two recursive sites of different shape in one function (frame reuse state must survive the alternation)
+	{"mixed-odd-returns", false, true},
+	{"mixed-even-returns", false, true},
+	{"mixed-return-at-1", false, true},
+	{"mixed-discard-at-1", false, true},
 }
 
 func ctxInfo(name string) (tail, ternary bool) {
@@ -148,6 +153,14 @@ func build(c Case) *gen.Program {
 		body = append(body, baseRet, &gen.ExprStmt{X: call}, &gen.Return{X: N("7")})
 	case "return-in-array":
 		body = append(body, baseRet, &gen.Return{X: &gen.Index{X: &gen.ArrayLit{Elems: []gen.Expr{call}}, I: N("0")}})
+	case "mixed-odd-returns":
+		body = append(body, baseRet, &gen.If{Cond: B("==", B("%", I("n"), N("2")), N("1")), Then: []gen.Stmt{&gen.Return{X: call}}}, &gen.ExprStmt{X: call})
+	case "mixed-even-returns":
+		body = append(body, baseRet, &gen.If{Cond: B("==", B("%", I("n"), N("2")), N("0")), Then: []gen.Stmt{&gen.Return{X: call}}}, &gen.ExprStmt{X: call})
+	case "mixed-return-at-1":
+		body = append(body, baseRet, &gen.If{Cond: B("==", I("n"), N("1")), Then: []gen.Stmt{&gen.Return{X: call}}}, &gen.ExprStmt{X: call})
+	case "mixed-discard-at-1":
+		body = append(body, baseRet, &gen.If{Cond: B("!=", I("n"), N("1")), Then: []gen.Stmt{&gen.Return{X: call}}}, &gen.ExprStmt{X: call})
 	}
 	first := []gen.Expr{N(fmt.Sprint(c.Depth))}
 	switch c.Params {
@@ -192,6 +205,9 @@ func runCase(c Case) (fails []fail, obs string) {
 	if r.Class == "budget" || r.Class == "unsupported" || r.Class == "compile-error" {
 		add("internal-reference", "reference did not produce a verdict: "+r.Class+" "+r.Err)
 		return fails, "ref:" + r.Class
+	}
+	if strings.HasPrefix(c.Context, "mixed-") && r.Class != "ok" {
+		return nil, "n/a:reference-out-of-frames"
 	}
 	o := tg.Run(src.Main.Src, tg.Opts{})
 	if o.Class == "panic" || o.Class == "compile-error" || o.Class == "budget" {
@@ -307,6 +323,9 @@ func main() {
 					for _, d := range depths {
 						if capt && d > 2049 && !r.Thorough() {
 							continue
+						}
+						if strings.HasPrefix(cx.name, "mixed-") && d > 1025 {
+							continue // beyond the reference's own frame budget the expected value is not defined by a sibling program
 						}
 						cases = append(cases, Case{Params: ps, Locals: locals, Capture: capt, Context: cx.name, Depth: d})
 					}
